@@ -1,0 +1,43 @@
+//go:build verif
+
+package p9
+
+import "sync/atomic"
+
+// VerifPathNode is a read-only snapshot of a node of the server's path tree,
+// used by external conformance checks. It exists only under the verif tag.
+type VerifPathNode struct {
+	Deleted bool
+	// Kids maps child names to their nodes.
+	Kids map[string]*VerifPathNode
+	// Refs maps child names to the number of references registered there.
+	Refs map[string]int
+	// Names is the number of entries in the reverse (reference -> name) map.
+	Names int
+}
+
+// VerifPathTree returns a snapshot of the whole path tree of s. It must be
+// called while no request is being handled.
+func VerifPathTree(s *Server) *VerifPathNode {
+	return verifSnap(s.pathTree)
+}
+
+func verifSnap(p *pathNode) *VerifPathNode {
+	p.childMu.RLock()
+	defer p.childMu.RUnlock()
+	n := &VerifPathNode{
+		Deleted: atomic.LoadUint32(&p.deleted) != 0,
+		Kids:    map[string]*VerifPathNode{},
+		Refs:    map[string]int{},
+		Names:   len(p.childRefNames),
+	}
+	for name, c := range p.childNodes {
+		n.Kids[name] = verifSnap(c)
+	}
+	for name, m := range p.childRefs {
+		if len(m) > 0 {
+			n.Refs[name] = len(m)
+		}
+	}
+	return n
+}
